@@ -953,7 +953,7 @@ theorem validate_eq_spec_partial (p : Param) (r : Req) (l : Leaf) (hs : p.schema
   unfold validateParameter validateSpec
   rw [decodeStyled_impl_eq_spec_partial p r (by rw [hs]; intro l' hl'; simp [schLeaves] at hl'; subst hl'; exact hdeep) h1 h3 h4]
   have hg : leafEnumGoType l = false := by
-    simpa [EnumGoType, hs, schLeaves] using h2
+    simpa [EnumGoType, hs, schLeaves, isComposition] using h2
   obtain ⟨c, name, req, ae, sch⟩ := p
   simp only at hs ⊢
   subst hs
@@ -1013,6 +1013,16 @@ theorem enum_gotype_witness :
     let r2 : Req := { query := [(['e'], [['1'], ['2']])] }
     EnumGoType p1 = true ∧ validateParameter p1 r1 = .schema ∧ validateSpec p1 r1 = .accept ∧
     EnumGoType p2 = true ∧ validateParameter p2 r2 = .schema ∧ validateSpec p2 r2 = .accept := by
+  decide
+
+/-- #42 across alternatives: `allOf: [{type: integer, enum: [5, 12]}, {type: integer, format: int32}]` with the path
+value `5`: the value is the int32 read by the last alternative, the first alternative's enum holds float64s -/
+theorem enum_gotype_cross_witness :
+    let p : Param := ⟨⟨.path, .simple, false⟩, ['p'], true, false,
+      .allOf [.prim { t := .integer, enum := [.num 5 0, .num 12 0] }, .prim { t := .int32 }]⟩
+    let r : Req := { path := some ['5'] }
+    EnumGoType p = true ∧ (schLeaves p.schema).any leafEnumGoType = false ∧
+    validateParameter p r = .schema ∧ validateSpec p r = .accept := by
   decide
 
 /-- regression (former witness of F-C05-3): ?id=010 against `maximum: 9` is ten and is rejected by both sides -/
